@@ -1,6 +1,7 @@
 package rules
 
 import (
+	"os"
 	"fmt"
 	"go/constant"
 	"go/token"
@@ -401,8 +402,12 @@ func ruleD3(w *world.World, r *report.RuleResult) {
 		}
 		var trunc *ssa.Call
 		for _, c := range world.Calls(fn) {
-			if call, ok := c.(*ssa.Call); ok && invokeName(call) == "Truncate" {
-				trunc = call
+			// a truncation that empties the log (Truncate(0)); cutting an incomplete final record off
+			// (Restore) keeps every complete record and needs no new marker
+			if call, ok := c.(*ssa.Call); ok && invokeName(call) == "Truncate" && len(call.Call.Args) == 1 {
+				if k, isConst := world.ConstInt(call.Call.Args[0]); isConst && k == 0 {
+					trunc = call
+				}
 			}
 		}
 		if trunc == nil {
@@ -707,6 +712,56 @@ func ruleD5(w *world.World, r *report.RuleResult) {
 	} else {
 		r.Fail(cpn+"|preamble-is-current-state", w.InstrPos(wcall), "the preamble bytes are not the marshalled result of getStateFunc()")
 	}
+	// the handle is opened once, without O_APPEND, and kept: Restore (ReadAll) and every earlier
+	// CreatePreamble leave its offset at the end of the old content, so the new content must be
+	// written from offset 0
+	appendMode := false
+	for _, fn := range w.FuncsIn("internal/aof/preamble") {
+		for _, c := range world.Calls(fn) {
+			if f := c.Common().StaticCallee(); f != nil && f.String() == "os.OpenFile" && len(c.Common().Args) == 3 {
+				if fl, ok := world.ConstInt(c.Common().Args[1]); ok && fl&int64(os.O_APPEND) != 0 {
+					appendMode = true
+				}
+			}
+		}
+	}
+	if !appendMode {
+		const Z world.Facts = 1
+		sameHandle := func(c *ssa.Call) bool { return world.SameExpr(c.Call.Value, wcall.Call.Value) }
+		genZ := func(in ssa.Instruction) world.Facts {
+			c, ok := in.(*ssa.Call)
+			if !ok || invokeName(c) != "Seek" || !sameHandle(c) || len(c.Call.Args) != 2 {
+				return 0
+			}
+			off, ok1 := world.ConstInt(c.Call.Args[0])
+			wh, ok2 := world.ConstInt(c.Call.Args[1])
+			if ok1 && ok2 && off == 0 && wh == 0 {
+				return Z
+			}
+			return 0
+		}
+		killZ := func(in ssa.Instruction) world.Facts {
+			c, ok := in.(*ssa.Call)
+			if !ok || !sameHandle(c) {
+				return 0
+			}
+			switch invokeName(c) {
+			case "Write", "Read", "WriteString", "ReadFrom", "WriteTo":
+				return Z
+			case "Seek":
+				if genZ(in) == 0 {
+					return Z
+				}
+			}
+			return 0
+		}
+		inZ := world.Must(cp, nil, genZ, killZ)
+		if world.FactsAt(inZ, wcall, genZ, killZ)&Z != 0 {
+			r.OK(cpn+"|write-from-offset-zero", w.InstrPos(wcall), "the preamble handle is rewound (Seek(0, 0)) on every path before the new content is written")
+		} else {
+			r.Fail(cpn+"|write-from-offset-zero", w.InstrPos(wcall), "CreatePreamble writes the new preamble without rewinding the long-lived read-write handle on every path: after a restore or an earlier rewrite the offset is at the end of the old content, the new JSON lands behind it (or is cut by the truncation) and the next restore fails to parse the preamble - everything compacted so far is lost")
+		}
+	}
 }
 
 // valueDerivesFromFieldCall: v is (possibly wrapped / passed through module calls) the result of a
@@ -852,6 +907,56 @@ func ruleD7(w *world.World, r *report.RuleResult) {
 			r.OK(key, w.InstrPos(parse), "the marker is parsed as a signed decimal int (the inverse of the writer's strconv.Itoa of its int record)")
 		} else {
 			r.Fail(key, w.InstrPos(parse), "the SELECT marker is parsed with "+f+" ("+bad+") although the writer formats a signed int that is -1 until the first write of the process (the header written by a rewrite on a fresh log is SELECT -1): replay stops at such a marker with an error and every command after it is lost")
+		}
+	}
+	// an incomplete final record (the process died while appending) is removed from the file: the log
+	// is append-only, so whatever the restore leaves at the end is in front of every later record
+	{
+		key := world.FuncName(rs) + "|restore-trims-incomplete-tail"
+		var rd *ssa.Call
+		for _, c := range world.Calls(rs) {
+			if call, ok := c.(*ssa.Call); ok {
+				if f := call.Call.StaticCallee(); f != nil && f.Name() == "ReadValue" && strings.Contains(f.String(), "resp") {
+					rd = call
+				}
+			}
+		}
+		if rd == nil {
+			r.Fail(key, w.Pos(rs.Pos()), "the log restore no longer reads RESP values from the file (reader not recognised)")
+			return
+		}
+		isN := func(v ssa.Value) bool {
+			ex, ok := v.(*ssa.Extract)
+			return ok && ex.Tuple == ssa.Value(rd) && ex.Index == 1
+		}
+		isErr := func(v ssa.Value) bool {
+			ex, ok := v.(*ssa.Extract)
+			return ok && ex.Tuple == ssa.Value(rd) && ex.Index == 2
+		}
+		var trim *ssa.Call
+		for _, c := range world.Calls(rs) {
+			call, ok := c.(*ssa.Call)
+			if !ok || invokeName(call) != "Truncate" || len(call.Call.Args) != 1 {
+				continue
+			}
+			if _, isConst := call.Call.Args[0].(*ssa.Const); isConst {
+				continue
+			}
+			if !derivesFrom(call.Call.Args[0], isN, 0) {
+				continue
+			}
+			// reached only through a test of the read error
+			for d := call.Block(); d != nil; d = d.Idom() {
+				if iff := world.IfOf(d); iff != nil && d != call.Block() && derivesFrom(world.CondValue(iff), isErr, 0) {
+					trim = call
+					break
+				}
+			}
+		}
+		if trim != nil {
+			r.OK(key, w.InstrPos(trim), "on a read error the file is cut back to the length of the complete records that were read")
+		} else {
+			r.Fail(key, w.InstrPos(rd), "when the last record of the log is incomplete the restore stops and leaves the fragment in the file: the file is append-only, every write acknowledged after the recovery lands behind the fragment, and at the next start the fragment and the record after it are read as one value - the restore fails (or indexes into an empty command) and all those writes are lost")
 		}
 	}
 }
